@@ -333,3 +333,65 @@ Theorem spec_is_stdlib_zone_examples :
   sl_fromutc (stdlib_zone z) (mksdt 719163 1 23 30 0) = Ok (mksdt 719163 2 23 30 1).
 Proof. exact sl_zone_examples. Qed.
 Print Assumptions spec_is_stdlib_zone_examples.
+
+(* ---- the MODEL side itself: the hand-written Model/TzConvert.v EQUALS the machine translation of pendulum's own code (Gen/TzGlue.v:
+   src/pendulum/tz/timezone.py and src/pendulum/datetime.py translated from /repo on every run, tools/vlib/gens/g15_tz_glue.py), so a
+   semantic change of the code breaks one of these proofs, not only a source pin.  Bridge (Proofs/TzGlueFacts.v): dt_of W f tz = the datetime
+   object with wall W, fold f, tzinfo tz; res_of (Some tz) r = the object a model result (W', f') denotes in the zone of the timezone object tz;
+   gtz_ok t = a FixedTimezone's table is fixed_zone of its offset; same_obj a b = equal identity tags mean the same object.  The native
+   operations the code calls are the primitives of Model/TzGlueObj.v, each tied to CPython's source by a spec_is_stdlib_* theorem (C02, C11). ---- *)
+From PV Require Import Spec.NativeDT Gen.AddDuration Model.TzGlueObj Gen.TzGlue Proofs.TzGlueFacts.
+
+(* Timezone.convert on a naive datetime = convert_naive: gap moved by the gap length in the direction fold says (fold reset to 0), repeated
+   time keeps fold, raise_on_unknown_times raises NonExistingTime / AmbiguousTime — EVERY table, wall value, fold and flag *)
+Theorem model_is_code_convert_naive : forall tz W f r,
+  glue_Timezone_convert tz (dt_of W f None) r = res_of (Some tz) (convert_naive (gz_zone tz) W f r).
+Proof. exact glue_convert_naive. Qed.
+Print Assumptions model_is_code_convert_naive.
+
+(* FixedTimezone.convert on a naive datetime = convert_naive_fixed (same fields, fold forced to 0) *)
+Theorem model_is_code_fixed_convert : forall tz W f r, wall_in_range W = true ->
+  glue_FixedTimezone_convert tz (dt_of W f None) r = res_of (Some tz) (convert_naive_fixed W f).
+Proof. exact glue_fixed_convert_naive. Qed.
+Print Assumptions model_is_code_fixed_convert.
+
+(* tz.convert(dt) on an aware datetime (either class) = in_tz: the object itself when tz is dt.tzinfo, else astz (native astimezone;
+   FixedTimezone.fromutc is the translated pendulum method) *)
+Theorem model_is_code_convert_aware : forall tz t1 W f r, gtz_ok t1 -> gtz_ok tz -> same_obj t1 tz ->
+  g_convert tz (dt_of W f (Some t1)) r = res_of (Some tz) (in_tz (gtz_is t1 tz) (gz_zone t1) (gz_zone tz) W f).
+Proof. exact glue_convert_aware. Qed.
+Print Assumptions model_is_code_convert_aware.
+
+(* DateTime.create(fields of W, tz=tz, fold=f, raise_on_unknown_times=r) = create *)
+Theorem model_is_code_create : forall tz W f r, wall_in_range W = true ->
+  let d := dt_of W f None in
+  glue_DateTime_create (g_year d) (g_month d) (g_day d) (g_hour d) (g_minute d) (g_second d) (g_microsecond d) (Some tz) (Z.b2z f) r
+  = res_of (Some tz) (create (gz_zone tz) (gz_fixed tz) W f r).
+Proof. exact glue_create. Qed.
+Print Assumptions model_is_code_create.
+
+Theorem model_is_code_create_naive : forall W f r, wall_in_range W = true ->
+  let d := dt_of W f None in
+  glue_DateTime_create (g_year d) (g_month d) (g_day d) (g_hour d) (g_minute d) (g_second d) (g_microsecond d) None (Z.b2z f) r = Ok d.
+Proof. exact glue_create_naive. Qed.
+Print Assumptions model_is_code_create_naive.
+
+(* Timezone.datetime / FixedTimezone.datetime (fields of W) = create with fold = 1 *)
+Theorem model_is_code_tz_datetime : forall tz W, wall_in_range W = true ->
+  let d := dt_of W true None in
+  (if gz_fixed tz then glue_FixedTimezone_datetime else glue_Timezone_datetime) tz (g_year d) (g_month d) (g_day d) (g_hour d) (g_minute d) (g_second d) (g_microsecond d)
+  = res_of (Some tz) (create (gz_zone tz) (gz_fixed tz) W true false).
+Proof. exact glue_tz_datetime. Qed.
+Print Assumptions model_is_code_tz_datetime.
+
+Theorem model_is_code_glue_examples :
+  let z := mkzone 3600 [(1000, 7200); (100000, 3600)] in let t := mkgtz 7 false 0 z in let fx := mkgtz 8 true (-18000) (fixed_zone (-18000)) in
+  wf_zone z = true /\
+  glue_Timezone_convert t (mkgdt (5000 * MEG) 0 None) false = Ok (mkgdt (1400 * MEG) 0 (Some t)) /\
+  glue_Timezone_convert t (mkgdt (5000 * MEG) 1 None) false = Ok (mkgdt (8600 * MEG) 0 (Some t)) /\
+  glue_Timezone_convert t (mkgdt (5000 * MEG) 1 None) true = Raise E_NonExistingTime /\
+  glue_Timezone_convert t (mkgdt (105000 * MEG) 0 None) true = Raise E_AmbiguousTime /\
+  glue_Timezone_convert t (mkgdt (105000 * MEG) 1 None) false = Ok (mkgdt (105000 * MEG) 1 (Some t)) /\
+  g_convert fx (mkgdt (105000 * MEG) 1 (Some t)) false = Ok (mkgdt (83400 * MEG) 0 (Some fx)).
+Proof. exact glue_examples. Qed.
+Print Assumptions model_is_code_glue_examples.
